@@ -749,6 +749,39 @@ theorem execAdd_presE (S : SpecCoreRE I) (p : JVal) : Pres I (execAdd p) := by
   have LW := L.toLeafWE
   unfold execAdd; pres
 @[aesop safe apply (rule_sets := [Pres])]
+theorem procInfo_presE (L : LeafWE0 I) (pid : Nat) : Pres I (procInfo pid) := by
+  have LK := L.toLeafK
+  unfold procInfo; pres
+@[aesop safe apply (rule_sets := [Pres])]
+theorem watcherInfo_presE (L : LeafWE0 I) (u : Nat) : Pres I (watcherInfo u) := by
+  have LK := L.toLeafK
+  unfold watcherInfo; pres
+@[aesop safe apply (rule_sets := [Pres])]
+theorem statsProc_presE (L : LeafWE0 I) (w : Watcher) (p : Int) : Pres I (statsProc w p) := by
+  have LK := L.toLeafK
+  unfold statsProc; pres
+@[aesop safe apply (rule_sets := [Pres])]
+theorem statsWatcher_presE (L : LeafWE0 I) (u : Nat) (n : JVal) : Pres I (statsWatcher u n) := by
+  have LK := L.toLeafK
+  unfold statsWatcher; pres
+@[aesop safe apply (rule_sets := [Pres])]
+theorem statsAllLoop_presE (L : LeafWE0 I) (ws : List Watcher) (parts : List (String × String)) :
+    Pres I (statsAllLoop ws parts) := by
+  have LK := L.toLeafK
+  induction ws generalizing parts with
+  | nil => unfold statsAllLoop; pres
+  | cons w ws ih => unfold statsAllLoop; pres
+@[aesop safe apply (rule_sets := [Pres])]
+theorem statsAll_presE (L : LeafWE0 I) : Pres I statsAll := by
+  have LK := L.toLeafK
+  unfold statsAll; pres
+@[aesop safe apply (rule_sets := [Pres])]
+theorem execStats_presE (S : SpecCoreRE I) (p : JVal) : Pres I (execStats p) := by
+  have L := S.toLeafRE
+  have LW := L.toLeafWE
+  have LW0 := LW.toLeafWE0
+  unfold execStats; pres
+@[aesop safe apply (rule_sets := [Pres])]
 theorem execReadOnly_presE (S : SpecCoreRE I) (c : String) (p : JVal) : Pres I (execReadOnly c p) := by
   have L := S.toLeafRE
   have LW := L.toLeafWE
